@@ -228,6 +228,28 @@ pub fn run(name: &str) -> Option<bool> {
             if std::env::var_os("VERIF_PANIC_MSG").is_some() { eprintln!("bits={} bytes={:02x?}", w.bit_len(), w.byte_content()); }
             !(w.bit_len() == 33 && w.byte_content() == &want[..])
         }
+        // fixed: a few octets announcing a huge length made the string / SEQUENCE OF readers allocate the announced size (abort)
+        "alloc_unchecked_length" => {
+            use crate::decode::Sz;
+            use asn1rs::descriptor::numbers::Integer;
+            use asn1rs::descriptor::Reader;
+            use asn1rs::prelude::*;
+            // SIZE (5..MAX): the length is a semi-constrained number: 8 length octets follow, value 2^62 (4 EiB)
+            let bytes = [0x08u8, 0x40, 0, 0, 0, 0, 0, 0, 0, 0x41, 0x42];
+            let mut bad = false;
+            macro_rules! probe { ($e:expr) => {{
+                let r = std::panic::catch_unwind(|| { let mut r: UperReader<Bits> = UperReader::from((&bytes[..], bytes.len() * 8)); $e(&mut r).is_err() });
+                bad |= !matches!(r, Ok(true));
+            }}; }
+            probe!(|r: &mut UperReader<Bits>| r.read_ia5string::<Sz<5, -1, false>>());
+            probe!(|r: &mut UperReader<Bits>| r.read_numeric_string::<Sz<5, -1, false>>());
+            probe!(|r: &mut UperReader<Bits>| r.read_printable_string::<Sz<5, -1, false>>());
+            probe!(|r: &mut UperReader<Bits>| r.read_visible_string::<Sz<5, -1, false>>());
+            probe!(|r: &mut UperReader<Bits>| r.read_octet_string::<Sz<5, -1, false>>());
+            probe!(|r: &mut UperReader<Bits>| r.read_bit_string::<Sz<5, -1, false>>());
+            probe!(|r: &mut UperReader<Bits>| r.read_sequence_of::<Sz<5, -1, false>, Integer<u64, crate::decode::Nc<0, 0, false, false, false>>>());
+            bad
+        }
         _ => return None,
     })
 }
